@@ -122,7 +122,7 @@ def cmd_replay(argv):
 def run_shard_check(prop, tier, seed, nshards=None, runs=None, wall=None,
                     write_evidence=True, quiet=False, shadow=True):
     conf = CONF[prop]
-    nshards = nshards or int(os.environ.get("XSIM_WORKERS", "16"))
+    nshards = nshards or int(os.environ.get("XSIM_WORKERS", str(max(2, min(16, os.cpu_count() or 16)))))
     runs = runs or int(os.environ.get("XSIM_RUNS", conf["runs"][tier]))
     wall = wall or conf["wall"][tier]
     clock = core.Clock()
